@@ -93,13 +93,15 @@ type machine struct {
 	notes    map[string]value
 
 	// threads
-	threads     []*thread
-	cur         *thread
-	doneCh      chan interface{}
-	wg          sync.WaitGroup
-	locks       map[*value]*lockState
-	preempts    int
-	timerYields int
+	threads        []*thread
+	cur            *thread
+	doneCh         chan interface{}
+	wg             sync.WaitGroup
+	locks          map[*value]*lockState
+	preempts       int
+	timerYields    int
+	longTimerFired bool // a time-out (timer >= 1 s) delivered on this path
+	inLongCheck    bool
 	// intrinsics switched off while the real function is run per assignment of a lifted value
 	bypassIntrinsic   map[string]bool
 	clock             *symv
